@@ -37,7 +37,7 @@ CONFIG = {
              "interleaved and sequential matrices, comments, quoted labels; PHYLIP strict/relaxed x sequential/"
              "interleaved; FASTA) of <= 400 (quick) / <= 800 (thorough) characters; (edit) 1-2 edits (delete char, "
              "delete span, delete token, insert char, replace char, insert keyword, duplicate span) of such documents; "
-             "(soup) token sequences over each format's alphabet; (deep) Newick nesting depths 10..20000; (valid) the "
+             "(soup) token sequences over each format's alphabet; (deep) Newick nesting depths 10..6000; (valid) the "
              "unmodified documents, which must parse on every route and deliver the abstract content they were "
              "written from; (atheris, thorough tier only) a coverage-guided campaign over bytes -> (reader variant, "
              "text) seeded with valid documents, same oracle.  Each input is read through every applicable route under a step budget of 200000 + "
@@ -63,8 +63,8 @@ CONFIG = {
 
 TOTALS = {
     "quick": {"prefix_docs": 56, "max_len": 400, "valid": 800, "edit": 3200, "soup": 1600},
-    "thorough": {"prefix_docs": 480, "max_len": 800, "valid": 16000, "edit": 100000, "soup": 40000,
-                 "atheris_runs": 240000},
+    "thorough": {"prefix_docs": 320, "max_len": 800, "valid": 12000, "edit": 60000, "soup": 30000,
+                 "atheris_runs": 160000},
 }
 
 MATRIX_CLASS = {"dna": "DnaCharacterMatrix", "rna": "RnaCharacterMatrix", "protein": "ProteinCharacterMatrix",
@@ -121,9 +121,12 @@ _PHYLIP_HEADER = re.compile(r"\s*(\d+)\s+(\d+)\s*$")
 
 def _strip_nexus(text):
     """Remove [comments] (nested, as the NEXUS standard has them) and replace 'quoted tokens' by a placeholder.
-    Returns None when a comment or quote is unterminated (declaration then not 'unambiguous')."""
+    A quote opens a quoted token only at the start of a token (after white space, punctuation or a comment standing
+    there), elsewhere it is an ordinary character.  Returns None when a comment or quote is unterminated (a
+    declaration is then not 'unambiguous')."""
     out = []
     i, n = 0, len(text)
+    at_start = True
     while i < n:
         c = text[i]
         if c == "[":
@@ -139,7 +142,7 @@ def _strip_nexus(text):
             if i >= n:
                 return None
             i += 1
-        elif c == "'":
+        elif c == "'" and at_start:
             i += 1
             while True:
                 if i >= n:
@@ -152,8 +155,10 @@ def _strip_nexus(text):
                 i += 1
             i += 1
             out.append(" QUOTED ")
+            at_start = True
         else:
             out.append(c)
+            at_start = c.isspace() or c in '{}(),;:=\\"'
             i += 1
     return "".join(out)
 
@@ -662,7 +667,7 @@ def soup_cases():
     return st.one_of(one("newick"), plain, plain2, plain2, one("nexus"), one("nexus"), stmt, stmt, stmt, one("phylip"), one("fasta"))
 
 
-DEEP_DEPTHS = (10, 100, 400, 900, 1500, 2500, 5000, 20000)
+DEEP_DEPTHS = (10, 100, 900, 2500, 3500, 6000)
 
 
 def run_atheris(ctx, runs, seed_docs):
